@@ -700,3 +700,119 @@ Proof.
   intros c draw Hr Hs. unfold dist_global. rewrite Hr, Hs. simpl. split; auto.
   intro rank. rewrite Hs. split; reflexivity.
 Qed.
+
+(* ------------------------------------------------------------------ *)
+(* the default rank / world size                                        *)
+(* ------------------------------------------------------------------ *)
+Definition not_query (ev : pg_event) : bool := negb (is_query ev).
+
+Lemma pg_after_app : forall evs1 evs2 g, pg_after g (evs1 ++ evs2) = pg_after (pg_after g evs1) evs2.
+Proof. intros. unfold pg_after. apply fold_left_app. Qed.
+
+Lemma pg_after_queries : forall qs g, forallb is_query qs = true -> pg_after g qs = g.
+Proof.
+  induction qs as [|q qs IH]; intros g H; simpl in *; auto.
+  apply andb_true_iff in H as [Hq Hqs]. destruct q; try discriminate. simpl. apply IH; auto.
+Qed.
+
+Lemma pg_after_without_queries : forall evs g, pg_after g evs = pg_after g (filter not_query evs).
+Proof.
+  induction evs as [|ev evs IH]; intros g; simpl; auto.
+  destruct ev; simpl; apply IH.
+Qed.
+
+Lemma resolve_independent_of_history : forall g evs rank world,
+    resolve_rank_world rank world (pg_after g evs) = resolve_rank_world rank world (pg_after g (filter not_query evs)).
+Proof. intros. rewrite <- pg_after_without_queries. reflexivity. Qed.
+
+Lemma resolve_torch_independent_of_history : forall g evs rank world,
+    resolve_torch rank world (pg_after g evs) = resolve_torch rank world (pg_after g (filter not_query evs)).
+Proof. intros. rewrite <- pg_after_without_queries. reflexivity. Qed.
+
+(* the process joined a group as (r, W), after whatever happened before, and only queried since *)
+Definition joined_as (r W : nat) (evs : list pg_event) : Prop :=
+  exists pre qs, evs = pre ++ EvInit r W :: qs /\ forallb is_query qs = true /\
+                 pg_available (pg_after pg_fresh pre) = true.
+
+Lemma joined_state : forall r W evs, joined_as r W evs ->
+    pg_after pg_fresh evs = {| pg_available := true; pg_joined := Some (r, W) |}.
+Proof.
+  intros r W evs (pre & qs & -> & Hq & Ha).
+  rewrite pg_after_app. simpl. change (fold_left pg_step qs ?g) with (pg_after g qs).
+  rewrite pg_after_queries by auto. simpl. rewrite Ha. reflexivity.
+Qed.
+
+Lemma resolve_after_init : forall r W evs, joined_as r W evs ->
+    resolve_rank_world None None (pg_after pg_fresh evs) = (r, W).
+Proof. intros. rewrite (joined_state r W) by auto. reflexivity. Qed.
+
+Lemma resolve_torch_after_init : forall r W evs, joined_as r W evs -> r < W ->
+    resolve_torch None None (pg_after pg_fresh evs) = Some (r, W).
+Proof.
+  intros. rewrite (joined_state r W) by auto. unfold resolve_torch. simpl.
+  apply Nat.ltb_lt in H0. rewrite H0. reflexivity.
+Qed.
+
+Lemma resolve_explicit : forall r W g, resolve_rank_world (Some r) (Some W) g = (r, W).
+Proof. reflexivity. Qed.
+
+Lemma resolve_no_group : forall g, is_distributed g = false -> resolve_rank_world None None g = (0, 1).
+Proof. intros g H. unfold resolve_rank_world, get_rank, get_world_size. rewrite H. reflexivity. Qed.
+
+Lemma built_default_is_explicit : forall r W evs, joined_as r W evs ->
+    (forall c draw, w_built c None None (pg_after pg_fresh evs) draw = w_run (w_set_world c W) draw r) /\
+    (forall c draw, cb_built c None None (pg_after pg_fresh evs) draw = cb_run (cb_set_world c W) draw r) /\
+    (r < W -> forall c draw, dist_built c None None (pg_after pg_fresh evs) draw
+                             = Some (dist_run (d_set_world c W) draw r)).
+Proof.
+  intros r W evs H. repeat split; intros.
+  - unfold w_built. rewrite (resolve_after_init r W) by auto. reflexivity.
+  - unfold cb_built. rewrite (resolve_after_init r W) by auto. reflexivity.
+  - unfold dist_built. rewrite (resolve_torch_after_init r W) by auto. reflexivity.
+Qed.
+
+(* the W processes of a group, each with a history of its own, samplers built with default arguments *)
+Lemma map_seq_ext : forall {B} (f g : nat -> B) W, (forall r, r < W -> f r = g r) -> map f (seq 0 W) = map g (seq 0 W).
+Proof. intros. apply map_ext_in. intros a Ha. apply in_seq in Ha. apply H. lia. Qed.
+
+Lemma w_default_split : forall c draw E W (hist : nat -> list pg_event),
+    len_oracle draw -> 1 <= W -> w_E c = Ok E ->
+    (forall r, r < W -> joined_as r W (hist r)) ->
+    split_of true W (E / W) (draw (w_seed c + w_epoch c)%Z [] E)
+             (map (fun r => stream_of (r_out (w_built c None None (pg_after pg_fresh (hist r)) draw))) (seq 0 W)).
+Proof.
+  intros c draw E W hist Hd HW HE Hj.
+  destruct (w_split (w_set_world c W) draw E Hd HW HE) as (_ & _ & Hs). simpl in Hs.
+  erewrite map_seq_ext; [exact Hs|].
+  intros r Hr. simpl. destruct (built_default_is_explicit r W (hist r) (Hj r Hr)) as (Hw & _). rewrite Hw. reflexivity.
+Qed.
+
+Lemma cb_default_split : forall c draw W (hist : nat -> list pg_event),
+    perm_oracle draw -> cb_ctor_ok c = true -> 1 <= W ->
+    (forall r, r < W -> joined_as r W (hist r)) ->
+    exists G h, cb_global c draw = Ok (G, h) /\ length G = cb_E c /\
+    split_of true W (cb_E c / W) G
+             (map (fun r => stream_of (r_out (cb_built c None None (pg_after pg_fresh (hist r)) draw))) (seq 0 W)).
+Proof.
+  intros c draw W hist Hd Hc HW Hj.
+  destruct (cb_split (cb_set_world c W) draw Hd Hc HW) as (G & h & HG & HL & _ & Hs).
+  exists G, h. split; [exact HG|]. split; [exact HL|].
+  simpl in Hs. erewrite map_seq_ext; [exact Hs|].
+  intros r Hr. simpl. destruct (built_default_is_explicit r W (hist r) (Hj r Hr)) as (_ & Hcb & _). rewrite Hcb. reflexivity.
+Qed.
+
+Lemma dist_default_split : forall c draw W (hist : nat -> list pg_event),
+    len_oracle draw -> dcfg_ok (d_set_world c W) ->
+    (forall r, r < W -> joined_as r W (hist r)) ->
+    exists G, dist_global c draw = Ok G /\ length G = d_n c /\
+      split_of (d_drop c) W (num_samples (d_set_world c W)) G
+               (map (fun r => match dist_built c None None (pg_after pg_fresh (hist r)) draw with
+                              | Some m => stream_of (r_out m) | None => [] end) (seq 0 W)).
+Proof.
+  intros c draw W hist Hd Hok Hj.
+  destruct (dist_interleave (d_set_world c W) draw Hd Hok) as (G & HG & HL & Hs).
+  exists G. split; [exact HG|]. split; [exact HL|].
+  simpl in Hs. erewrite map_seq_ext; [exact Hs|].
+  intros r Hr. simpl. destruct (built_default_is_explicit r W (hist r) (Hj r Hr)) as (_ & _ & Hdd).
+  rewrite Hdd by auto. reflexivity.
+Qed.
